@@ -65,6 +65,7 @@ class Ctx:
         self.notes = []
         self.t0 = time.time()
         self._vio_per_sig = {}
+        self.only_case = None
 
     # -- bookkeeping
     def quick(self):
@@ -79,7 +80,10 @@ class Ctx:
         )
 
     def my_share(self, total):
-        """Indices of `range(total)` that belong to this shard (round robin)."""
+        """Indices of `range(total)` that belong to this shard (round robin).  In replay mode
+        only the witness's case index (when the witness names one)."""
+        if self.only_case is not None:
+            return [self.only_case] if self.only_case < total and self.only_case % self.nshards == self.shard else []
         return range(self.shard, total, self.nshards)
 
     def evaluation(self, fingerprint=None, nontrivial=True, n=1):
@@ -117,7 +121,7 @@ class Ctx:
         if n >= 5:  # keep the first few witnesses per mechanism
             return
         w = {"property": self.prop, "signature": signature, "tier": self.tier,
-             "seed": self.seed, "shard": self.shard}
+             "seed": self.seed, "shard": self.shard, "nshards": self.nshards}
         w.update({k: _jsonable(v) for k, v in witness.items()})
         self.violations.append(w)
 
@@ -154,7 +158,21 @@ def main(argv=None):
     from vf import common
 
     common.import_repo()  # puts $VERIF_REPO/src first on sys.path and checks genjax's origin
+    only_case = None
+    if a.replay:
+        # a replay file is one witness written by the parent: re-run exactly its shard / case
+        with open(a.replay) as f:
+            wit = json.load(f)
+        a.seed = int(wit.get("seed", a.seed))
+        a.tier = wit.get("tier", a.tier)
+        a.shard = int(wit.get("shard", 0))
+        a.nshards = int(wit.get("nshards", 16))
+        try:
+            only_case = int(str(wit.get("case", "")).split("/")[-1])
+        except ValueError:
+            only_case = None
     ctx = Ctx(a.prop, a.tier, a.seed, a.shard, a.nshards, a.replay)
+    ctx.only_case = only_case
     mod = importlib.import_module(f"vf.props.{a.prop.lower()}")
     from vf import reach
 
